@@ -489,7 +489,7 @@ func finish(verifDir string, prop *Property, tier string, seed int, obls []Oblig
 		"unresolved_anchors":  unresolved,
 		"notes":               notes,
 		"checker_cmd":         fmt.Sprintf("bin/stfscheck -p %s -tier %s", prop.ID, tier),
-		"trusted_base":        []string{"go/types", "go/packages", "go/cfg", "go/ssa", "rule tables in /verif/checker", "dependencies treated as opaque"},
+		"trusted_base":        []string{"go/types", "go/packages", "go/cfg", "rule tables and function inventory in /verif/checker", "the inliners of the normalisation pass (x/tools refactor/inline copied under checker/xti, checker/stmtinline.go; every step re-type-checked)", "dependencies treated as opaque"},
 		"exhaustive":          true,
 		"does_not_decide":     prop.NotDecided,
 	}
